@@ -356,7 +356,14 @@ def advinit(run, fx, rule='LAZYFILL'):
             v_ = fval(x['c'][0])
             return None if v_ is None else -v_
         return None
-    sent = [fval(e['c'][1]) for _, e in adv.elements() if e['k'] == 'BinaryOperator' and e['op'] == '==']
+    # the comparison of a cache cell with a floating constant, in either polarity and either operand order
+    sent = []
+    for _, e in adv.elements():
+        if e['k'] == 'BinaryOperator' and e['op'] in ('==', '!='):
+            for a_, b_ in ((e['c'][0], e['c'][1]), (e['c'][1], e['c'][0])):
+                if fval(b_) is not None and adv.strip_all_casts(adv.N(a_))['k'] in ('ArraySubscriptExpr', 'UnaryOperator', 'DeclRefExpr'):
+                    sent.append(fval(b_))
+    sent = sorted(set(sent))
     if len(sent) != 1 or sent[0] is None:
         run.broken(rule, inst, 'the sentinel comparison in Font::advance was not found', adv.where())
         return
